@@ -69,6 +69,9 @@ fn main() {
     let tier = if let Some(r) = &replay_only { r["tier"].as_str().unwrap_or(&tier).to_string() } else { tier };
     let run = RunInfo { property: property.clone(), tier, seed, start: Instant::now(), verif_dir, replay_only };
     quiet_panics();
+    // wall-clock monitor: a call into the real code that spins without ever yielding cannot be
+    // interrupted by the virtual clock or by poll budgets
+    start_watchdog_mode(&run.property, &run.verif_dir, 20, 24 << 30, matches!(property.as_str(), "C02" | "C05" | "C06" | "C10" | "C11"));
     let summary = match property.as_str() {
         "C01" => c0103::run(&run, false),
         "C02" => c02::run(&run),
